@@ -125,6 +125,18 @@ CHECKS["C07"] = dict(
          "formula vs its documented fully parenthesised reading, equal answer sets, in bodies, heads and &del.",
     design="§6 C07", technique="Lean 4 proof (kernel-evaluated complete enumeration of operator pairs/triples against an independent precedence-climbing specification; tables extracted from source) + parser correspondence")
 
+CHECKS["C11"] = dict(
+    text="Theorems (Lean 4): flags_table — at each of 30 syntactic positions the flag expressions regenerated from "
+         "visit_SymbolicAtom, applied to the traversal state of that position, coincide with the documented categories (future "
+         "atoms fail unless normal head or inside a constraint; past/initially atoms fail exactly in positive head positions); "
+         "accept_regular — __get_param on '^l core '^t (any l, t, any clean core incl. __ prefixes and inner primes) computes the "
+         "shift t-l, rejects iff (fail_future ∧ t>l) ∨ (fail_past ∧ t<l); prime_uniform; reject_iff / accepts_iff_doc — rejection "
+         "exactly for the documented placements (specification TelSpec.docAccepts); theory_guard for &tel/&del body atoms.  The "
+         "traversal-state table per position is hand-transcribed; it is validated on every run against the real transform on the "
+         "full grid (30 positions with 40 templates × 63 atom forms × parts) and random nestings; theory-atom placements, primes "
+         "and head-forbidden operators in formulas, multi-term elements are checked on the real code.",
+    design="§6 C11", technique="Lean 4 proof (prime arithmetic for all names; acceptance = documented categories via extracted flag expressions) + exhaustive position×form grid against the real transform")
+
 NOT_YET = {}
 
 def main():
